@@ -96,6 +96,31 @@ def run_pdf(cell, rec, seed):
         got = lc.call(rec, "kl(p,p)", lambda: p.kl_divergence(p), info)
         if got is not None:
             rec.close("kl(p,p) = 0", got, np.zeros(R), ns=nsH, detail=info, mech="kl-self-nonzero")
+        # densities far from the origin (means 1e6 sd away): KL only depends on the difference
+        # of the means; coinciding densities must still give exactly zero, nearby ones the same
+        # value as at the origin
+        sd_ = np.sqrt(np.max(np.diagonal(tp.Sigma, axis1=1, axis2=2), axis=1))[:, None]
+        shift = 1e6 * sd_ * np.sign(gen.vec(rng, R, D))
+        L_ = build.lib()
+        pf = L_.pdf.GaussianPDF(Sigma=J(tp.Sigma), mu=J(tp.mu + shift))
+        got = lc.call(rec, "kl(p,p) far", lambda: pf.kl_divergence(pf), info)
+        if got is not None:
+            rec.close("kl(p,p) = 0 far from the origin", got, np.zeros(R), ns=nsH, detail=info,
+                      mech="kl-self-nonzero-far-mean")
+        pf2 = L_.pdf.GaussianPDF(Sigma=J(tq.Sigma), mu=J((tq.mu + shift)))
+        got = lc.call(rec, "kl(p,q) far", lambda: pf.kl_divergence(pf2), info)
+        if got is not None:
+            # the difference of the two means is formed first in exact arithmetic here:
+            # (mu_q + s) - (mu_p + s) as floats
+            dm = (tq.mu + shift) - (tp.mu + shift)
+            ref_far = orc.kl(np.zeros((R, D)), tp.Sigma, dm, tq.Sigma)
+            Lq = np.abs(orc.inv(tq.Sigma))
+            ns_far = 1.0 + 0.5 * (np.trace(np.abs(np.linalg.solve(tq.Sigma, tp.Sigma)), axis1=1,
+                                           axis2=2) + np.einsum("rd,rde,re->r", np.abs(dm), Lq,
+                                                                np.abs(dm)) + D + np.abs(
+                orc.slogdet(tq.Sigma)) + np.abs(orc.slogdet(tp.Sigma)))
+            rec.close("kl of nearby densities far from the origin", got, ref_far, ns=ns_far,
+                      detail=info, mech="kl-value-far-mean")
         # perturbed copy: strictly positive (sampled 'only if' direction)
         mu2 = tp.mu + 0.3
         p2 = build.lib().pdf.GaussianPDF(Sigma=J(tp.Sigma), mu=J(mu2))
